@@ -26,12 +26,12 @@ from harness import port_common as pc
 from harness.verdict import Run
 
 ALL_ARCHS = env.X86_ARCHS + env.ARM_ARCHS
-QUICK_FULL = ["zen1", "zen3", "zen4", "spr", "n1", "tx2", "a64fx", "v2"]  # loaded completely in the quick tier
+QUICK_FULL = ["zen1", "zen3", "zen4", "spr", "hsw", "n1", "tx2", "a64fx", "v2"]  # loaded completely in the quick tier
 
 
 # ---------------------------------------------------------------------------------- R1 / R2
 def r1_shapes(run):
-    out = os.path.join(tlc.WORK, "c15-shapes.ndjson")
+    out = os.path.join(tlc.WORK, "c15-shapes-%d.ndjson" % os.getpid())
     os.makedirs(tlc.WORK, exist_ok=True)
     if os.path.exists(out):
         os.unlink(out)
